@@ -1,6 +1,7 @@
 // Shared declarations of the verification harness (not part of oomd).
 #pragma once
 #include <json/json.h>
+#include <atomic>
 #include <cstdint>
 #include <functional>
 #include <map>
@@ -65,6 +66,7 @@ struct Sim {
   std::string last_throw; // Oomd:: frames of the most recent __cxa_throw
 };
 extern Sim g;
+extern std::atomic<unsigned> g_yield_ppm; // probability (ppm) of a seeded yield at mutex lock/unlock, TSan flavor
 
 void ev(Json::Value& e); // adds seq/tick/t and appends to the trace
 void flush_trace();
